@@ -534,10 +534,45 @@ def _always_raises(body: List[ast.stmt]) -> bool:
 
 
 def _single_expression(callee) -> Optional[ast.expr]:
+    """The one expression a helper computes: `return E`, or a chain of call-free local bindings and guarded early returns
+    (`x = <pure>` ... `if C: return K` ... `return E`), which is the conditional expression `K if C else (.. E)` - written with and / or
+    / not when K is a boolean constant (`if not A: return False; return B` is `A and B`)."""
     body = _body_without_doc(callee.node)
     if len(body) == 1 and isinstance(body[0], ast.Return) and body[0].value is not None:
         return body[0].value
-    return None
+    if not body or not isinstance(body[-1], ast.Return) or body[-1].value is None:
+        return None
+    local = {}
+    guards = []
+    for st in body[:-1]:
+        if isinstance(st, ast.Assign) and len(st.targets) == 1 and isinstance(st.targets[0], ast.Name) and not guards \
+                and not any(isinstance(x, (ast.Call, ast.Lambda, ast.Yield, ast.Await, ast.NamedExpr)) for x in ast.walk(st.value)) \
+                and st.targets[0].id not in local and st.targets[0].id not in callee.params:
+            local[st.targets[0].id] = st.value
+        elif isinstance(st, ast.If) and not st.orelse and len(st.body) == 1 and isinstance(st.body[0], ast.Return) and st.body[0].value is not None:
+            guards.append((st.test, st.body[0].value))
+        else:
+            return None
+    if not guards:
+        return None
+
+    class S(ast.NodeTransformer):
+        def visit_Name(self, n):
+            if isinstance(n.ctx, ast.Load) and n.id in local:
+                return self.visit(copy.deepcopy(local[n.id]))
+            return n
+    e = copy.deepcopy(body[-1].value)
+    for test, k in reversed(guards):
+        test, k = copy.deepcopy(test), copy.deepcopy(k)
+        if isinstance(k, ast.Constant) and k.value is False:
+            neg = test.operand if isinstance(test, ast.UnaryOp) and isinstance(test.op, ast.Not) else ast.UnaryOp(op=ast.Not(), operand=test)
+            e = ast.BoolOp(op=ast.And(), values=[neg, e])
+        elif isinstance(k, ast.Constant) and k.value is True:
+            e = ast.BoolOp(op=ast.Or(), values=[test, e])
+        else:
+            e = ast.IfExp(test=test, body=k, orelse=e)
+    e = S().visit(e)
+    return ast.fix_missing_locations(ast.copy_location(e, body[-1]))
 
 
 def _blocked_positions(stmt: ast.stmt) -> Set[int]:
@@ -1433,6 +1468,233 @@ def normalise_format_and_getattr(fn) -> int:
     return int(done > 0)
 
 
+def normalise_casts(fn) -> int:
+    """`cast(T, e)` / `typing.cast(T, e)` -> `e`, in place: at run time cast returns its second argument unchanged."""
+    from .model import norm
+    if 'cast' not in _vocab(fn):
+        return 0
+    done = 0
+
+    class R(ast.NodeTransformer):
+        def visit_Call(self, c):
+            nonlocal done
+            self.generic_visit(c)
+            if norm(c.func) in ('cast', 'typing.cast') and len(c.args) == 2 and not c.keywords:
+                done += 1
+                return c.args[1]
+            return c
+    R().visit(fn.node)
+    return int(done > 0)
+
+
+def drop_identity_stores(fn) -> int:
+    """`self.a = self.a` / `x = x` (what is left when a helper that stores several coupled attributes is spliced into a setter that passes
+    the current value of the others) is not a write: removed in place (replaced by `pass` when it is the only statement of its block)."""
+    from .model import norm
+    done = 0
+    for x in ast.walk(fn.node):
+        for fld in ('body', 'orelse', 'finalbody'):
+            b = getattr(x, fld, None)
+            if not (isinstance(b, list) and b and isinstance(b[0], ast.stmt)):
+                continue
+            keep = []
+            for st in b:
+                if isinstance(st, ast.Assign) and len(st.targets) == 1 and isinstance(st.targets[0], (ast.Name, ast.Attribute)) \
+                        and isinstance(st.value, (ast.Name, ast.Attribute)) and norm(st.targets[0]) == norm(st.value):
+                    done += 1
+                    continue
+                keep.append(st)
+            if len(keep) != len(b):
+                b[:] = keep or [ast.copy_location(ast.Pass(), b[0])]
+    return int(done > 0)
+
+
+def normalise_reshape_spellings(fn) -> int:
+    """Function and view spellings of a reshape -> the method form, in place:
+        np.reshape(x, shape[, order])   ->  x.reshape(shape[, order=order])
+        np.ravel(x[, order])            ->  x.reshape(-1[, order=order])
+        x.ravel([order])                ->  x.reshape(-1[, order=order])        (both may return a view; flatten, which copies, is kept)
+    x must be a name, attribute, subscript or call (so that the method form means the same)."""
+    from .model import norm
+    if not (_vocab(fn) & {'reshape', 'ravel'}):
+        return 0
+    done = 0
+
+    def order_kw(o):
+        return [] if o is None or (isinstance(o, ast.Constant) and o.value == 'C') else [ast.keyword(arg='order', value=o)]
+
+    class R(ast.NodeTransformer):
+        def visit_Call(self, c):
+            nonlocal done
+            self.generic_visit(c)
+            f = norm(c.func)
+            kws = {k.arg: k.value for k in c.keywords}
+            if set(kws) - {'order'}:
+                return c
+            minus1 = ast.UnaryOp(op=ast.USub(), operand=ast.Constant(value=1))
+            if f in ('np.reshape', 'numpy.reshape') and 2 <= len(c.args) <= 3 and isinstance(c.args[0], (ast.Name, ast.Attribute, ast.Subscript, ast.Call)):
+                o = c.args[2] if len(c.args) == 3 else kws.get('order')
+                done += 1
+                return ast.copy_location(ast.Call(func=ast.Attribute(value=c.args[0], attr='reshape', ctx=ast.Load()), args=[c.args[1]],
+                                                  keywords=order_kw(o)), c)
+            if f in ('np.ravel', 'numpy.ravel') and 1 <= len(c.args) <= 2 and isinstance(c.args[0], (ast.Name, ast.Attribute, ast.Subscript, ast.Call)):
+                o = c.args[1] if len(c.args) == 2 else kws.get('order')
+                done += 1
+                return ast.copy_location(ast.Call(func=ast.Attribute(value=c.args[0], attr='reshape', ctx=ast.Load()), args=[minus1],
+                                                  keywords=order_kw(o)), c)
+            if isinstance(c.func, ast.Attribute) and c.func.attr == 'ravel' and len(c.args) <= 1 \
+                    and not (isinstance(c.func.value, ast.Name) and c.func.value.id in ('np', 'numpy')):
+                o = c.args[0] if c.args else kws.get('order')
+                done += 1
+                return ast.copy_location(ast.Call(func=ast.Attribute(value=c.func.value, attr='reshape', ctx=ast.Load()), args=[minus1],
+                                                  keywords=order_kw(o)), c)
+            return c
+    R().visit(fn.node)
+    if done:
+        ast.fix_missing_locations(fn.node)
+    return int(done > 0)
+
+
+def normalise_broadcasts(fn) -> int:
+    """Explicit broadcasting that only prepares operands of elementwise arithmetic, in place:
+        a, b = np.broadcast_arrays(x, y)   ->   a = x; b = y        (no target is read by a later operand of the same statement)
+        np.broadcast_to(x, shape)           ->   x
+    Elementwise arithmetic broadcasts by itself; the VALUES the rules reason about are the same (shapes are the business of E8, which
+    models broadcasting itself)."""
+    from .model import norm
+    if not (_vocab(fn) & {'broadcast_arrays', 'broadcast_to'}):
+        return 0
+    done = 0
+
+    def blocks(node):
+        for x in ast.walk(node):
+            for fld in ('body', 'orelse', 'finalbody'):
+                b = getattr(x, fld, None)
+                if isinstance(b, list) and b and isinstance(b[0], ast.stmt):
+                    yield b
+    for body in list(blocks(fn.node)):
+        i = 0
+        while i < len(body):
+            st = body[i]
+            if isinstance(st, ast.Assign) and len(st.targets) == 1 and isinstance(st.targets[0], (ast.Tuple, ast.List)) \
+                    and isinstance(st.value, ast.Call) and norm(st.value.func) in ('np.broadcast_arrays', 'numpy.broadcast_arrays') \
+                    and not st.value.keywords and len(st.value.args) == len(st.targets[0].elts) \
+                    and all(isinstance(t, ast.Name) for t in st.targets[0].elts):
+                names = [t.id for t in st.targets[0].elts]
+                ok = True
+                for k, a in enumerate(st.value.args):
+                    earlier = set(names[:k]) - {names[k]}
+                    if any(isinstance(x, ast.Name) and x.id in earlier for x in ast.walk(a)):
+                        ok = False
+                if ok:
+                    new = [ast.copy_location(ast.Assign(targets=[ast.Name(id=nm, ctx=ast.Store())], value=a), st)
+                           for nm, a in zip(names, st.value.args) if not (isinstance(a, ast.Name) and a.id == nm)]
+                    body[i:i + 1] = new
+                    done += 1
+                    i += len(new)
+                    continue
+            i += 1
+
+    class R(ast.NodeTransformer):
+        def visit_Call(self, c):
+            nonlocal done
+            self.generic_visit(c)
+            if norm(c.func) in ('np.broadcast_to', 'numpy.broadcast_to') and len(c.args) == 2 and not c.keywords:
+                done += 1
+                return c.args[0]
+            return c
+    R().visit(fn.node)
+    if done:
+        ast.fix_missing_locations(fn.node)
+    return int(done > 0)
+
+
+def normalise_dict_builders(fn) -> int:
+    """A dictionary built up by consecutive statements  ->  one dict literal, in place:
+
+        d = {} / d: T = {..} / d = dict() / d = dict(k=v) / d = dict([(k, v), ..])
+        d['k1'] = v1
+        d.update({'k2': v2}) / d.update(k3=v3)
+
+    becomes `d = {.., 'k1': v1, 'k2': v2, 'k3': v3}` (same keys, same order, same value expressions; a value may not mention d; the
+    statements must follow each other directly in one block).  Codec and dispatch-table rules read dict displays."""
+    from .model import norm
+    voc = _vocab(fn)
+    if not ({'Dict', 'dict'} & voc):
+        return 0
+    done = 0
+
+    def as_dict(v):
+        """ast.Dict equivalent of a dict-constructing expression, or None"""
+        if isinstance(v, ast.Dict) and all(k is not None for k in v.keys):
+            return ast.Dict(keys=list(v.keys), values=list(v.values))
+        if isinstance(v, ast.Call) and isinstance(v.func, ast.Name) and v.func.id == 'dict':
+            if not v.args and all(k.arg for k in v.keywords):
+                return ast.Dict(keys=[ast.Constant(value=k.arg) for k in v.keywords], values=[k.value for k in v.keywords])
+            if len(v.args) == 1 and not v.keywords and isinstance(v.args[0], (ast.List, ast.Tuple)) \
+                    and all(isinstance(e, (ast.Tuple, ast.List)) and len(e.elts) == 2 for e in v.args[0].elts):
+                return ast.Dict(keys=[e.elts[0] for e in v.args[0].elts], values=[e.elts[1] for e in v.args[0].elts])
+        return None
+
+    def mentions(e, name) -> bool:
+        return any(isinstance(x, ast.Name) and x.id == name for x in ast.walk(e))
+
+    def blocks(node):
+        for x in ast.walk(node):
+            for fld in ('body', 'orelse', 'finalbody'):
+                b = getattr(x, fld, None)
+                if isinstance(b, list) and b and isinstance(b[0], ast.stmt):
+                    yield b
+    for body in list(blocks(fn.node)):
+        i = 0
+        while i < len(body):
+            st = body[i]
+            tgt = val = None
+            if isinstance(st, ast.Assign) and len(st.targets) == 1 and isinstance(st.targets[0], ast.Name):
+                tgt, val = st.targets[0].id, st.value
+            elif isinstance(st, ast.AnnAssign) and isinstance(st.target, ast.Name) and st.value is not None:
+                tgt, val = st.target.id, st.value
+            d = as_dict(val) if tgt is not None else None
+            if d is None:
+                i += 1
+                continue
+            j = i + 1
+            absorbed = 0
+            while j < len(body):
+                nx = body[j]
+                if isinstance(nx, ast.Assign) and len(nx.targets) == 1 and isinstance(nx.targets[0], ast.Subscript) \
+                        and isinstance(nx.targets[0].value, ast.Name) and nx.targets[0].value.id == tgt \
+                        and isinstance(nx.targets[0].slice, ast.Constant) and not mentions(nx.value, tgt) \
+                        and norm(nx.targets[0].slice) not in {norm(k) for k in d.keys}:
+                    d.keys.append(nx.targets[0].slice)
+                    d.values.append(nx.value)
+                elif isinstance(nx, ast.Expr) and isinstance(nx.value, ast.Call) and isinstance(nx.value.func, ast.Attribute) \
+                        and nx.value.func.attr == 'update' and isinstance(nx.value.func.value, ast.Name) and nx.value.func.value.id == tgt \
+                        and not mentions(ast.Module(body=[ast.Expr(value=a) for a in nx.value.args] + [ast.Expr(value=k.value) for k in nx.value.keywords], type_ignores=[]), tgt):
+                    extra = None
+                    if len(nx.value.args) == 1 and not nx.value.keywords:
+                        extra = as_dict(nx.value.args[0])
+                    elif not nx.value.args and nx.value.keywords and all(k.arg for k in nx.value.keywords):
+                        extra = ast.Dict(keys=[ast.Constant(value=k.arg) for k in nx.value.keywords], values=[k.value for k in nx.value.keywords])
+                    if extra is None or {norm(k) for k in extra.keys} & {norm(k) for k in d.keys}:
+                        break
+                    d.keys += extra.keys
+                    d.values += extra.values
+                else:
+                    break
+                absorbed += 1
+                j += 1
+            changed = absorbed or not isinstance(val, ast.Dict) or isinstance(st, ast.AnnAssign)
+            if changed:
+                new = ast.copy_location(ast.Assign(targets=[ast.Name(id=tgt, ctx=ast.Store())], value=d), st)
+                body[i:j] = [new]
+                done += 1
+            i += 1
+    if done:
+        ast.fix_missing_locations(fn.node)
+    return int(done > 0)
+
+
 def normalise_named_tests(fn) -> int:
     """`flag = <test>` ... `if flag:` / `if not flag:` / `while flag` / `x if flag else y` / `assert flag`  ->  the test itself at the use,
     in place, when `flag` is a local bound exactly once to a pure test (comparison, `is None`, isinstance, and / or / not of such) and
@@ -1941,6 +2203,10 @@ def flatten_model(model) -> Optional[Flattener]:
     fl.calls = run(normalise_calls, model)
     fl.dispatch = run(normalise_dispatch)
     fl.out_ufuncs = run(normalise_out_ufuncs)
+    fl.casts = run(normalise_casts)
+    fl.reshapes = run(normalise_reshape_spellings)
+    fl.broadcasts = run(normalise_broadcasts)
+    fl.dict_builders = run(normalise_dict_builders)
     fl.string_locals = run(normalise_string_locals)
     fl.format_getattr = run(normalise_format_and_getattr)
     fl.fro_norms = run(normalise_fro_norms)
@@ -1952,6 +2218,16 @@ def flatten_model(model) -> Optional[Flattener]:
         fl.collectors = run(normalise_collectors)
         _VOCAB.clear()
         return fl
+    # a post-reference helper that is a chain of guarded early returns is the single expression it computes
+    fl.guarded = 0
+    for f in new:
+        b_ = _body_without_doc(f.node)
+        if len(b_) > 1:
+            e_ = _single_expression(f)
+            if e_ is not None:
+                f.node.body = [ast.copy_location(ast.Return(value=e_), b_[-1])]
+                ast.fix_missing_locations(f.node)
+                fl.guarded += 1
     # helpers first (so that a helper calling another helper is flat before it is spliced), then everything else
     for _ in range(3):
         for f in new:
@@ -1987,6 +2263,11 @@ def flatten_model(model) -> Optional[Flattener]:
             else:
                 f.module.functions.pop(f.name, None)
     _VOCAB.clear()          # splicing changed the callers
+    fl.identity_stores = run(drop_identity_stores)
+    # the spliced bodies may bring spellings the first passes normalised only in the callers
+    for pass_ in (normalise_casts, normalise_out_ufuncs, normalise_reshape_spellings, normalise_broadcasts, normalise_dict_builders, normalise_string_locals,
+                  normalise_fro_norms, normalise_named_tests):
+        run(pass_)
     fl.collectors = run(normalise_collectors)
     _VOCAB.clear()
     return fl
